@@ -1,7 +1,7 @@
 #!/usr/bin/env python3
 """Regenerates /verif/MANIFEST.json (kept in one place so the 17 entries stay consistent)."""
 import json, subprocess
-hook = subprocess.run(['git','-C','/repo','log','--format=%h','--grep=verif hooks','-1'],capture_output=True,text=True).stdout.strip() or '427d70d'
+hooks = subprocess.run(['git','-C','/repo','log','--reverse','--format=%h','--grep=verif hooks'],capture_output=True,text=True).stdout.split() or ['427d70d', '4a40241']
 props = {
  "C01": ("seeded history search (Insert/Delete/Search over all kinds and key types, plateau/sweep/fan phases) with step-by-step refinement against an ideal map; pool/GC environment events; inter-tree interleaving; GOARCH=386 batch; known-finding domain batch", "§6 C01, §14"),
  "C02": ("seeded history search; All/Backward compared with a sorted reference (independent comparators) after every mutating step; returned-key stability", "§6 C02, §14"),
@@ -37,7 +37,7 @@ for pid, (tech, ref) in props.items():
 m = {
  "version": 1,
  "setup_cmd": "./setup.sh",
- "hooks": {"guard": "verif", "enable": "go build -tags verif (the harness module /verif/sim replaces github.com/Clement-Jean/go-art with /repo)", "baseline_off_cmd": "cd /repo && GOFLAGS=-mod=mod GOPROXY=off go test -vet=off -count=1 -timeout 25m ./...", "source_commits": [hook], "add_only": True},
+ "hooks": {"guard": "verif", "enable": "go build -tags verif (the harness module /verif/sim replaces github.com/Clement-Jean/go-art with /repo); ./check falls back to -tags 'verif verifnoiter', 'verif verifnonode', 'verif verifnonode verifnowalk' when a hook file does not compile against the tree", "baseline_off_cmd": "cd /repo && GOFLAGS=-mod=mod GOPROXY=off go test -vet=off -count=1 -timeout 25m ./...", "source_commits": hooks, "add_only": True},
  "engines": [{"name": "sim", "path": "sim/", "serves_properties": list(props.keys()), "kind_free_text": "single Go binary: seeded trace generator, executor with reference models and oracles (world / node / heap / race engines), worker fan-out, delta-debugging minimiser, replay; build variants -race, checkptr, GOARCH=386, statement-point instrumented copy (instrument/)"}],
  "checks": checks,
  "notes": "exit 0 held / 1 VIOLATION (confirmed and replayed in a fresh process) / 2 check could not be completed (build failure, watchdog, harness self-check, only inconclusive candidates). Env: VERIF_SEED, VERIF_TIER, VERIF_BUDGET_S, VERIF_WORKERS, VERIF_RUNS, VERIF_REPO. Known findings: KNOWN_FINDINGS.txt. Seeded changes: seeded/. Property-preserving edits: neutral/.",
